@@ -45,10 +45,36 @@ CONFIGS = {
                alphabet=[I("hold", 1), I("acq", 1), I("exit", 12), I("wproc", 1)] + both("stop", 4) + both("start")),
   "end3": dict(np=3, prio=[0, 0, 1], auto=[1, 1, 1], nres=1, poolcap=2, maxlen=3, maxtime=4,
                alphabet=[I("hold", 1), I("acq", 1), I("pacq", 2), I("wproc", 1), I("wproc", 2), I("stop", 1, 4), I("stop", 2, 4), I("exit", 12), I("tadd", 0, 7)]),
+  "buf2": dict(np=2, prio=[0, 0], auto=[1, 1], nres=1, poolcap=1, bufcap=2, maxlen=3, maxtime=4,
+               alphabet=HOLDS + [I("bput", 1), I("bput", 3), I("bget", 1), I("bget", 3), I("tadd", 1, -5)] + both("intr", -2, 5)),
+  "buf3": dict(np=3, prio=[0, 1, 0], auto=[1, 1, 1], nres=1, poolcap=1, bufcap=2, maxlen=3, maxtime=4,
+               alphabet=[I("hold", 1), I("bput", 2), I("bget", 2), I("bget", 3), I("bput", 3), I("stop", 2, 3)]),
+  "queue2": dict(np=2, prio=[0, 0], auto=[1, 1], nres=1, poolcap=1, oqcap=1, pqcap=1, maxlen=3, maxtime=4,
+               alphabet=[I("hold", 1), I("qput", 1), I("qput", 2), I("qget"), I("pqput", 1, 0), I("pqput", 2, 1), I("pqget"), I("pqcancel", 1), I("pqreprio", 1, 2), I("tadd", 1, -5)]),
+  "queue3": dict(np=3, prio=[0, 0, 1], auto=[1, 1, 1], nres=1, poolcap=1, oqcap=1, pqcap=2, maxlen=3, maxtime=4,
+               alphabet=[I("hold", 1), I("qput", 1), I("qget"), I("pqput", 1, 1), I("pqput", 2, 0), I("pqget"), I("pqcancel", 1), I("intr", 1, -2, 5)]),
+  "cond2": dict(np=2, prio=[0, 0], auto=[1, 1], nres=1, poolcap=1, maxlen=4, maxtime=4,
+               alphabet=[I("hold", 1), I("cwait", 0), I("cwait", 2), I("csig"), I("setflag", 0, 1), I("csub", 0), I("acq", 1), I("rel", 1)] + both("ccancel") + both("cremove")),
+  "cond3": dict(np=3, prio=[0, 1, 0], auto=[1, 1, 1], nres=1, poolcap=1, maxlen=3, maxtime=4,
+               alphabet=[I("hold", 1), I("cwait", 0), I("cwait", 1), I("setflag", 0, 1), I("setflag", 1, 1), I("csig"), I("tadd", 1, -5)]),
+  "rec2q": dict(np=2, prio=[0, 1], auto=[1, 1], nres=1, poolcap=2, maxlen=4, maxtime=5,
+               alphabet=[I("hold", 1), I("rec", 1, 1), I("rec", 1, 0), I("acq", 1), I("rel", 1), I("pre", 1), I("exit", 11)]),
+  "rec2": dict(np=2, prio=[0, 1], auto=[1, 1], nres=1, poolcap=2, maxlen=4, maxtime=5,
+               alphabet=[I("hold", 1), I("rec", 1, 1), I("rec", 1, 0), I("acq", 1), I("rel", 1), I("pre", 1), I("rec", 3, 1), I("rec", 3, 0), I("pacq", 1), I("prel", 1), I("ppre", 2)]),
+  "rec2b": dict(np=2, prio=[0, 0], auto=[1, 1], nres=1, poolcap=1, bufcap=2, oqcap=1, pqcap=1, maxlen=4, maxtime=5,
+               alphabet=[I("hold", 1), I("rec", 4, 1), I("rec", 4, 0), I("bput", 1), I("bget", 2), I("rec", 8, 1), I("rec", 8, 0), I("pqput", 1, 0), I("pqget"), I("pqcancel", 1), I("exit", 11)]),
+  "wev2": dict(np=2, prio=[0, 0], auto=[1, 1], nres=1, poolcap=1, maxlen=3, maxtime=4, uevs=[(1, 0, I("nop"))],
+               alphabet=[I("hold", 0), I("hold", 2), I("wevent", 1), I("tadd", 0, -5), I("tadd", 1, 7), I("evcancel", 1)] + both("intr", -2, 5)),
+  "wev2s": dict(np=2, prio=[0, 1], auto=[1, 1], nres=1, poolcap=1, maxlen=3, maxtime=4, uevs=[(1, 0, I("stop", 1, 5))],
+               alphabet=[I("hold", 1), I("wevent", 1), I("tadd", 1, 7), I("acq", 1), I("wproc", 1), I("wproc", 2)]),
 }
 
 FOR_PROPERTY = {
-  "C04": (["wait2"], ["wait2r", "lost2", "end2"]),
+  "C04": (["wait2", "wev2"], ["wait2r", "wev2s", "lost2", "end2"]),
+  "C11": (["buf2"], ["buf3"]),
+  "C12": (["queue2"], ["queue3"]),
+  "C13": (["cond2"], ["cond3"]),
+  "C14": (["rec2q"], ["rec2", "rec2b"]),
   "C05": (["mutex2"], ["mutex2p", "mutex3", "lost2"]),
   "C06": (["order3"], ["order3e", "pool3"]),
   "C07": (["pool2"], ["pool3"]),
@@ -67,11 +93,12 @@ def write_config(name, cfg, export=True):
         f.write("---- MODULE %s ----\nEXTENDS Kernel\n" % mod)
         f.write("c_Prio0 == <<%s>>\n" % ", ".join(map(str, cfg["prio"])))
         f.write("c_Auto == <<%s>>\n" % ", ".join(map(str, cfg["auto"])))
-        f.write("c_Alphabet == {%s}\n====\n" % ", ".join(tla_tuple(t) for t in cfg["alphabet"]))
+        f.write("c_Alphabet == {%s}\n" % ", ".join(tla_tuple(t) for t in cfg["alphabet"]))
+        f.write("c_UEvs == <<%s>>\n====\n" % ", ".join("<<%d, %d, %s>>" % (u[0], u[1], tla_tuple(u[2])) for u in cfg.get("uevs", [])))
     with open(os.path.join(vlib.SPEC, mod + ".cfg"), "w") as f:
         f.write("SPECIFICATION Spec\nCONSTANTS\n  NP = %d\n  Prio0 <- c_Prio0\n  Auto <- c_Auto\n  NRes = %d\n  PoolCap = %d\n"
-                "  Alphabet <- c_Alphabet\n  MaxLen = %d\n  MaxTime = %d\nINVARIANTS NoViolation QuiescentOK %s\nCONSTRAINT Constr\nVIEW %s\nCHECK_DEADLOCK FALSE\n"
-                % (cfg["np"], cfg["nres"], cfg["poolcap"], cfg["maxlen"], cfg["maxtime"], "ExportProg" if export else "",
+                "  BufCap = %d\n  OqCap = %d\n  PqCap = %d\n  UEvs <- c_UEvs\n  Alphabet <- c_Alphabet\n  MaxLen = %d\n  MaxTime = %d\nINVARIANTS NoViolation QuiescentOK %s\nCONSTRAINT Constr\nVIEW %s\nCHECK_DEADLOCK FALSE\n"
+                % (cfg["np"], cfg["nres"], cfg["poolcap"], cfg.get("bufcap", 2), cfg.get("oqcap", 1), cfg.get("pqcap", 1), cfg["maxlen"], cfg["maxtime"], "ExportProg" if export else "",
                    "ViewS" if cfg.get("restart") else "View"))
     return mod
 
@@ -118,10 +145,12 @@ def parse_programs(out, np):
 
 
 def program_text(pid, cfg, scripts):
-    L = ["prog %d" % pid, "cap res=%d pool=%d buf=1 oq=1 pq=1" % (cfg["nres"], cfg["poolcap"])]
+    L = ["prog %d" % pid, "cap res=%d pool=%d buf=%d oq=%d pq=%d" % (cfg["nres"], cfg["poolcap"], cfg.get("bufcap", 2), cfg.get("oqcap", 1), cfg.get("pqcap", 1))]
     for i, sc in enumerate(scripts):
         code = " ; ".join("%s %d %d %d" % ins for ins in sc) if sc else "nop"
         L.append("proc %d %d %d : %s" % (i + 1, cfg["prio"][i], cfg["auto"][i], code))
+    for i, u in enumerate(cfg.get("uevs", [])):
+        L.append("uev %d %d %d : %s %d %d %d" % ((i + 1, u[0], u[1]) + tuple(u[2])))
     L.append("end")
     return "\n".join(L)
 
